@@ -1318,3 +1318,70 @@ static BACKENDS: [&(dyn Backend); 6] = [
 pub fn backend(b: Bk) -> &'static dyn Backend {
     BACKENDS[b.index()]
 }
+
+// ------------------------------------------------------------------------------------------
+// version-independent entry points (paseto-core / paseto-json only)
+
+/// Wrapper claim type used to exercise `Validate::map`.
+pub struct Wrapped {
+    pub tag: u32,
+    pub inner: RegisteredClaims,
+}
+
+/// `validator.validate(claims)` evaluated directly, optionally through `.map(|w| &w.inner)`.
+pub fn validate_direct(v: &VSpec, claims: &RegSpec, mapped: bool) -> Out<bool> {
+    guard(|| {
+        let c = claims.to_claims();
+        let validator = compile::<RegisteredClaims>(v);
+        let r = if mapped {
+            let m = validator.map(|w: &Wrapped| &w.inner);
+            m.validate(&Wrapped { tag: 7, inner: c })
+        } else {
+            validator.validate(&c)
+        };
+        match r {
+            Ok(()) => Ok(true),
+            Err(PasetoError::ClaimsError) => Ok(false),
+            Err(e) => Err(e),
+        }
+    })
+}
+
+pub fn encode_reg(claims: &RegSpec) -> Out<Vec<u8>> {
+    guard(|| {
+        let mut out = Vec::new();
+        paseto_core::encodings::Payload::encode(claims.to_claims(), &mut out).map_err(PasetoError::PayloadError)?;
+        Ok(out)
+    })
+}
+
+pub fn decode_reg(bytes: &[u8]) -> Out<RegSpec> {
+    guard(|| {
+        let c = <RegisteredClaims as paseto_core::encodings::Payload>::decode(bytes).map_err(PasetoError::PayloadError)?;
+        Ok(RegSpec::from_claims(&c))
+    })
+}
+
+pub fn json_payload_encode(v: &serde_json::Value) -> Out<Vec<u8>> {
+    guard(|| {
+        let mut out = Vec::new();
+        paseto_core::encodings::Payload::encode(Json(v.clone()), &mut out).map_err(PasetoError::PayloadError)?;
+        Ok(out)
+    })
+}
+
+pub fn json_payload_decode(bytes: &[u8]) -> Out<serde_json::Value> {
+    guard(|| Ok(<Json<serde_json::Value> as paseto_core::encodings::Payload>::decode(bytes).map_err(PasetoError::PayloadError)?.0))
+}
+
+pub fn json_footer_encode(v: &serde_json::Value) -> Out<Vec<u8>> {
+    guard(|| {
+        let mut out = Vec::new();
+        paseto_core::encodings::Footer::encode(&Json(v.clone()), &mut out).map_err(PasetoError::PayloadError)?;
+        Ok(out)
+    })
+}
+
+pub fn json_footer_decode(bytes: &[u8]) -> Out<serde_json::Value> {
+    guard(|| Ok(<Json<serde_json::Value> as paseto_core::encodings::Footer>::decode(bytes).map_err(PasetoError::PayloadError)?.0))
+}
